@@ -6,7 +6,7 @@ import struct
 
 from hypothesis import strategies as st
 
-from vf.core import Fails, Target, attempt, bx, hx, raised
+from vf.core import Fails, Target, attempt, bx, hx, raised, attempt_owned
 from vf.env import sock as sockenv
 from vf.env.sock import NonTermination, ScriptedSocket, cut_positions
 from vf.ref import wire as ref
@@ -643,7 +643,7 @@ def check_version(p2p, case, f, cls):
     if R["relay"] is None or bad:
         return
     cls.append("version-user-agent-present" if R["user_agent"] else "version-user-agent-empty-as-built")
-    _compare_version(f, attempt(p2p.parse_version_payload, built), R, "user-agent-present" if R["user_agent"] else "user-agent-empty")
+    _compare_version(f, attempt_owned(f, "codec/version/parse-differs-after-caller-edited-earlier-result", p2p.parse_version_payload, built), R, "user-agent-present" if R["user_agent"] else "user-agent-empty")
     if R["user_agent"]:
         # same payload with the user-agent segment replaced by the empty string
         emptied = built[: R["user_agent_offset"]] + b"\x00" + built[R["user_agent_end"] :]
@@ -673,7 +673,7 @@ def check_getheaders(p2p, case, f, cls):
     if not f.expect(isinstance(built, (bytes, bytearray)) and bytes(built) == want, "codec/getheaders/build-ne-reference-layout" + sfx, f"got {short(built, 48)} want {short(want, 48)}"):
         if not isinstance(built, (bytes, bytearray)):
             return
-    parsed = attempt(p2p.parse_getheaders_payload, bytes(built))
+    parsed = attempt_owned(f, "codec/getheaders/parse-differs-after-caller-edited-earlier-result", p2p.parse_getheaders_payload, bytes(built))
     if raised(parsed) or not isinstance(parsed, dict):
         f.add("codec/getheaders/parse-failed" + sfx, f"count {n}: {parsed!r}"[:200])
         return
@@ -723,7 +723,7 @@ def check_inv(p2p, case, f, cls):
     if not f.expect(isinstance(built, (bytes, bytearray)) and bytes(built) == want, "codec/inv/build-ne-reference-layout" + sfx, f"got {short(built, 48)} want {short(want, 48)}"):
         if not isinstance(built, (bytes, bytearray)):
             return
-    parsed = attempt(p2p.parse_inv_payload, bytes(built))
+    parsed = attempt_owned(f, "codec/inv/parse-differs-after-caller-edited-earlier-result", p2p.parse_inv_payload, bytes(built))
     if raised(parsed) or not isinstance(parsed, dict):
         f.add("codec/inv/parse-failed" + sfx, f"count {n}: {parsed!r}"[:200])
         return
@@ -766,7 +766,7 @@ def check_addr(p2p, case, f, cls):
     if not f.expect(isinstance(built, (bytes, bytearray)) and bytes(built) == want, "codec/addr/build-ne-reference-layout" + sfx, f"got {short(built, 48)} want {short(want, 48)}"):
         if not isinstance(built, (bytes, bytearray)):
             return
-    parsed = attempt(p2p.parse_addr_payload, bytes(built))
+    parsed = attempt_owned(f, "codec/addr/parse-differs-after-caller-edited-earlier-result", p2p.parse_addr_payload, bytes(built))
     if raised(parsed) or not isinstance(parsed, dict):
         f.add("codec/addr/parse-failed" + sfx, f"count {n}: {parsed!r}"[:200])
         return
@@ -801,7 +801,7 @@ def check_ping(p2p, case, f, cls):
     if not f.expect(isinstance(built, (bytes, bytearray)) and bytes(built) == want, "codec/ping/build-ne-reference-layout", f"nonce {nonce}: got {short(built)} want {want.hex()}"):
         if not isinstance(built, (bytes, bytearray)):
             return
-    parsed = attempt(p2p.parse_ping_payload, bytes(built))
+    parsed = attempt_owned(f, "codec/ping/parse-differs-after-caller-edited-earlier-result", p2p.parse_ping_payload, bytes(built))
     ok = isinstance(parsed, dict) and int_eq(parsed.get("nonce"), nonce)
     f.expect(ok, "codec/ping/nonce-ne-built", f"parsed {parsed!r} built from {nonce}"[:200])
 
